@@ -239,7 +239,29 @@ def rand_seq(rng, n):
     return {k: 1 for k in KEYS[:n]}
 
 
+def zunmark(v):
+    """round j6: a value that is neither a sequence nor a python scalar - the 0-dimensional array np.array(5) - is the string cell
+    `~0d:5` on the wire (a string is a scalar for the model, as the 0-d array is for the text: it has no length and cannot be iterated)"""
+    import numpy as np
+    if isinstance(v, str) and v.startswith('~0d:'):
+        return np.array(int(v[4:]))
+    if isinstance(v, (list, tuple)):
+        return type(v)(zunmark(x) for x in v)
+    return v
+
+
+def zmark(v):
+    import numpy as np
+    if isinstance(v, np.ndarray) and v.ndim == 0:
+        return '~0d:%d' % int(v)
+    if isinstance(v, (list, tuple)):
+        return type(v)(zmark(x) for x in v)
+    return v
+
+
 def gen_zip(rng, op):
+    # scalars: python scalars, and for zipper a 0-dimensional array (lens measures len0 of what it is given: a string has a length there)
+    sc = [5, 'str', None, 2.5] + (['~0d:5', '~0d:5'] if op == 'zipper' else [])
     k = rng.choice([0, 1, 2, 2, 3, 3, 4])
     n = rng.choice([0, 2, 3, 3, 4])
     mode = rng.choice(['equal', 'broadcast', 'broadcast', 'mismatch', 'free'])
@@ -249,11 +271,11 @@ def gen_zip(rng, op):
         if mode == 'equal':
             vs.append(rand_seq(rng, n))
         elif mode == 'broadcast':
-            vs.append(rand_seq(rng, n) if r < 0.45 else rand_seq(rng, 1) if r < 0.7 else rng.choice([5, 'str', None, 2.5]))
+            vs.append(rand_seq(rng, n) if r < 0.45 else rand_seq(rng, 1) if r < 0.7 else rng.choice(sc))
         elif mode == 'mismatch':
-            vs.append(rand_seq(rng, rng.choice([n, n + 1, 1])) if r < 0.8 else 7)
+            vs.append(rand_seq(rng, rng.choice([n, n + 1, 1])) if r < 0.8 else rng.choice([7] + sc[4:]))
         else:
-            vs.append(rand_seq(rng, rng.choice([0, 1, 2, 3])) if r < 0.7 else rng.choice([5, 'str', None]))
+            vs.append(rand_seq(rng, rng.choice([0, 1, 2, 3])) if r < 0.7 else rng.choice(sc[:3] + sc[4:]))
     return dict(tag='%s %s' % (op, mode if k else 'no-arguments'), lines=['(lift %s %s)' % (op, enc(vs))])
 
 
@@ -545,7 +567,7 @@ def run_line(state, sx):
         name = proto.unhex(args[0])
         return 'ok ' + enc(getattr(pyg_base, name)(proto.dec(args[1]), **proto.dec(args[2])))
     if op == 'zipper':
-        return 'ok ' + enc(list(pyg_base.zipper(*proto.dec(args[0]))))
+        return 'ok ' + enc(zmark(list(pyg_base.zipper(*zunmark(proto.dec(args[0]))))))
     if op == 'lens':
         return 'ok ' + enc(pyg_base.lens(*proto.dec(args[0])))
     if op == 'aslist':
@@ -967,7 +989,7 @@ def laws(rng, tier, ctx):
         lens_ = set(len(s) for s in seqs) - {1}
         count += 1
         try:
-            out = list(zipper(*copy.deepcopy(vs)))
+            out = zmark(list(zipper(*zunmark(copy.deepcopy(vs)))))
         except ValueError:
             out = 'ValueError'
         except Exception as e:
